@@ -24,6 +24,8 @@ pub enum Case {
         seq: Vec<usize>,
         /// None: all records of type `actual`; Some(t): last record replaced by one of type t (RefCodec file)
         odd_last: Option<Ty>,
+        /// one coordinate slot of the first record replaced by a special value: (slot number, value bits)
+        dev: Option<(usize, u64)>,
     },
     /// identity / conversion clauses on one value
     Value { ty: Ty, idx: usize },
@@ -41,8 +43,9 @@ fn tyf(v: Option<&Value>) -> Option<Ty> {
 impl Case {
     pub fn to_json(&self) -> Value {
         match self {
-            Case::File { requested, actual, seq, odd_last } => {
-                json!({"kind": "file", "requested": tyj(*requested), "actual": tyj(*actual), "seq": seq, "odd_last": odd_last.map(|t| t.name())})
+            Case::File { requested, actual, seq, odd_last, dev } => {
+                json!({"kind": "file", "requested": tyj(*requested), "actual": tyj(*actual), "seq": seq, "odd_last": odd_last.map(|t| t.name()),
+                       "dev": dev.map(|(s, b)| json!([s, format!("{:#018x}", b)]))})
             }
             Case::Value { ty, idx } => json!({"kind": "value", "ty": tyj(*ty), "idx": idx}),
             Case::Bulk { ty, wrong, len, pos } => json!({"kind": "bulk", "ty": tyj(*ty), "wrong": tyj(*wrong), "len": len, "pos": pos}),
@@ -56,6 +59,10 @@ impl Case {
                 seq: v.get("seq")?.as_array()?.iter().map(|x| x.as_u64().map(|u| u as usize)).collect::<Option<Vec<_>>>()?,
                 odd_last: match v.get("odd_last") {
                     Some(Value::String(s)) => Ty::from_name(s),
+                    _ => None,
+                },
+                dev: match v.get("dev") {
+                    Some(Value::Array(a)) if a.len() == 2 => Some((a[0].as_u64()? as usize, u64::from_str_radix(a[1].as_str()?.trim_start_matches("0x"), 16).ok()?)),
                     _ => None,
                 },
             }),
@@ -85,14 +92,19 @@ fn value_set(ty: Ty) -> Vec<MShape> {
 
 /// bytes of a file with records of type `actual` (library writer for the
 /// 13 geometry types, RefCodec for null records and mixed files)
-fn file_bytes(actual: Ty, seq: &[usize], odd_last: Option<Ty>) -> Vec<u8> {
+fn file_bytes(actual: Ty, seq: &[usize], odd_last: Option<Ty>, dev: Option<(usize, u64)>) -> Vec<u8> {
     if actual != Ty::Null && odd_last.is_none() {
         let red = reduced_set(actual);
         let d = Dev::quiet(vec![]);
         {
             let mut w = ShapeWriter::new(d.clone());
-            for i in seq {
-                write_shape(&mut w, &to_lib(&red[*i])).expect("write");
+            for (k, i) in seq.iter().enumerate() {
+                let mut m = vec![red[*i].clone()];
+                if let (0, Some((slot, bits))) = (k, dev) {
+                    let sl = slots(&m);
+                    apply(&mut m, sl[slot], f64::from_bits(bits));
+                }
+                write_shape(&mut w, &to_lib(&m[0])).expect("write");
             }
         }
         return d.data();
@@ -134,8 +146,8 @@ fn mismatch(req: Ty, act: Ty) -> String {
 pub fn run(case: &Case) -> Vec<(String, String)> {
     let mut out = vec![];
     match case {
-        Case::File { requested, actual, seq, odd_last } => {
-            let bytes = file_bytes(*actual, seq, *odd_last);
+        Case::File { requested, actual, seq, odd_last, dev } => {
+            let bytes = file_bytes(*actual, seq, *odd_last, *dev);
             let generic: Result<Vec<Shape>, String> =
                 ShapeReader::new(Dev::quiet(bytes.clone())).and_then(|r| r.read()).map_err(|e| err_kind(&e));
             let generic = match generic {
@@ -353,14 +365,26 @@ pub fn check(tier: Tier) -> i32 {
         }
         for requested in ALL13 {
             for seq in &seqs {
-                cases.push(Case::File { requested, actual, seq: seq.clone(), odd_last: None });
+                cases.push(Case::File { requested, actual, seq: seq.clone(), odd_last: None, dev: None });
                 if seq.len() >= 2 && seq.iter().all(|i| *i == 0) {
                     // second (last) record of another type T'
                     for odd in ALL14 {
                         if odd != actual {
-                            cases.push(Case::File { requested, actual, seq: seq.clone(), odd_last: Some(odd) });
+                            cases.push(Case::File { requested, actual, seq: seq.clone(), odd_last: Some(odd), dev: None });
                         }
                     }
+                }
+            }
+        }
+    }
+    // typed == generic+convert under special values: every slot of the first record x the slot's alphabet
+    for ty in ALL13 {
+        let red = reduced_set(ty);
+        for first in 0..red.len().min(2) {
+            let sl = slots(&[red[first].clone()]);
+            for (si, s) in sl.iter().enumerate() {
+                for val in alphabet_for_dim(s.dim) {
+                    cases.push(Case::File { requested: ty, actual: ty, seq: vec![first, 0], odd_last: None, dev: Some((si, val.to_bits())) });
                 }
             }
         }
